@@ -100,8 +100,10 @@ impl Drop for Blob {
     }
 }
 
+/// gc_batch_size of the stores built by `new_blob` (0 = the default of 100)
+static GC_BATCH: std::sync::atomic::AtomicUsize = std::sync::atomic::AtomicUsize::new(0);
 fn new_blob(chunk: usize) -> Blob {
-    match now(BlobStore::new(take_store(), BlobConfig::new().with_chunk_size(chunk))) {
+    match now(BlobStore::new(take_store(), { let c = BlobConfig::new().with_chunk_size(chunk); match GC_BATCH.load(std::sync::atomic::Ordering::Relaxed) { 0 => c, b => c.with_gc_batch_size(b) } })) {
         Ok(b) => Blob { b },
         Err(e) => machinery(&format!("BlobStore::new failed: {e}")),
     }
@@ -1314,12 +1316,18 @@ fn main() {
         }
     }
 
-    if parts.contains('Q') {
+    // part Q twice: with the default collector batch (100) and with a batch of 2, smaller than the number
+    // of artifacts and chunks the sequences create (the incremental and the full collector scan in batches)
+    for (batch, pname) in [(0usize, "Q"), (2, "Q_gc_batch_2")] {
+        if !parts.contains('Q') {
+            break;
+        }
+        GC_BATCH.store(batch, std::sync::atomic::Ordering::Relaxed);
         let depth = args.flag("depth").and_then(|d| d.parse().ok()).unwrap_or(if thorough { 8 } else { 6 });
         let q = part_q(&mut rep, depth, selftest);
         rep.part(
-            "Q",
-            json!({"depth": q.depth, "states": q.states, "states_with_shared_chunk": q.shared_states, "transitions": q.transitions, "ops_executed_incl_replay": q.ops_run,
+            pname,
+            json!({"gc_batch_size": if batch == 0 { 100 } else { batch }, "depth": q.depth, "states": q.states, "states_with_shared_chunk": q.shared_states, "transitions": q.transitions, "ops_executed_incl_replay": q.ops_run,
                    "oracle_comparisons": q.evals, "states_probed": q.probed, "violating_transitions": q.violating, "violations_by_signature": q.by_sig,
                    "levels(depth,expanded,new_states)": q.per_level}),
         );
@@ -1331,6 +1339,7 @@ fn main() {
             rep.machinery("vacuous part Q: too few states");
         }
     }
+    GC_BATCH.store(0, std::sync::atomic::Ordering::Relaxed);
 
     if parts.contains("E1") {
         let n = nvc::par::worker_count();
